@@ -13,10 +13,17 @@ GEN = [gen_sqrt_tabs]
 TRUSTED = ["hand-written models lean/Mpir/Model/Root.lean: word level for mpn_sqrtrem1/2, mod_34lsub1 and the PERFSQR tests, "
            "value level for mpn_dc_sqrtrem, mpn_sqrtrem, mpn_rootrem(_basecase/_internal), mpz wrappers, perfpow.c "
            "(tied by correspondence on every run; carry/buffer bookkeeping inside value-level functions is not represented)",
-           "translator tools/gen_sqrt_tabs.py (approx_tab, sq_res_0x100, PERFSQR_MOD_TEST constants after gcc -E, perfpow primes[])"]
+           "translator tools/gen_sqrt_tabs.py (approx_tab, sq_res_0x100, PERFSQR_MOD_TEST constants after gcc -E, perfpow primes[])",
+           "mpn_rootrem: the Newton iterations (rootrem.c, rootrem_basecase.c) are modelled and run differentially only; theorems about "
+           "mpz_root/mpz_rootrem/mpz_perfect_power_p take the contract of mpn_rootrem (RootremSpec) as a hypothesis; "
+           "only the final adjustment is proved (root_final_adjust)"]
 ASSUMPTIONS = ["the driver answers with the specification (Nat.sqrt, bitwise iroot, exhaustive-exponent perfect-power search) and asserts "
                "model == specification on every op (`!modelspec`)",
-               "mpn_sqrtrem1, mpn_sqrtrem2, mpn_dc_sqrtrem are static: reached through mpn_sqrtrem with 1, 2 and more limbs"]
+               "mpn_sqrtrem1, mpn_sqrtrem2, mpn_dc_sqrtrem are static: reached through mpn_sqrtrem with 1, 2 and more limbs",
+               "mpz_perfect_power_p: only soundness is proved (perfect_power_p_iff_partial); completeness is differential",
+               "exceptions: errno.c __gmp_exception ignores its error_bit, so SQRT_OF_NEGATIVE and DIVIDE_BY_ZERO are both observed as SIGFPE (`!fpe`)",
+               "not exercised because they do not terminate / abort (reported as findings): mpn_perfect_square_p with a zero most significant limb; "
+               "mpz_root/mpz_nthroot/mpz_rootrem with an operand of >= ROOTREM_THRESHOLD limbs and n >= ~2^40 (temporary of 0.585*n/64 limbs)"]
 RULE = ("u = k^n-1, k^n, k^n+1 for all k < 2^12 (sampled in the quick tier) x n <= 70 incl. n = 2 through every sqrt/root/perfect-* entry point; "
         "large k with roots all-ones / 2^j / 2^j-1 / long one-runs; limb counts 1..40 odd and even then sparse to 2000 (thorough); "
         "every normalisation shift 0..63 of mpn_sqrtrem; n from 1 to beyond the bit length; negative u; 0, 1; "
@@ -129,9 +136,9 @@ def gen_ops(rng, tier, ctx=None):
     # ---- k^n - 1, k^n, k^n + 1 for small k (all k < 2^12 in the thorough tier; a sample in quick) x n <= 70
     ks = list(range(2, 1 << 12))
     if quick:
-        ks = list(range(2, 40)) + rng.sample(range(40, 1 << 12), 110) + [1008, 1009, 1010, 4095]
+        ks = list(range(2, 40)) + rng.sample(range(40, 1 << 12), 500) + [1008, 1009, 1010, 4095]
     for k in ks:
-        ns = list(range(2, 71)) if (not quick or k < 12) else sorted(set([2, 3] + rng.sample(range(2, 71), 6)))
+        ns = list(range(2, 71)) if (not quick or k < 12) else sorted(set([2, 3] + rng.sample(range(2, 71), 8)))
         for n in ns:
             p = k ** n
             for u in around(p):
@@ -175,6 +182,22 @@ def gen_ops(rng, tier, ctx=None):
                     if n % 2 == 1 and rng.random() < 0.3: yield from root_ops(rng, -p, n, mpn=False)
                 yield from root_ops(rng, u, n)
                 if nl <= 10 and rng.random() < 0.5: yield from root_ops(rng, -u, n | 1, mpn=False)
+    # ---- exact powers through the remp == NULL path of mpn_rootrem that pads the operand (un >= ROOTREM_THRESHOLD,
+    #      un / k > 2): the exactness flag then hinges on the low limb of the approximate root (sp[0] <= 1)
+    for _ in range(1500 if quick else 30000):
+        k = rng.choice([2, 2, 3, 3, 4, 5, 6, 7, 9, 11, 13])
+        xl = rng.randrange(3, 9 if quick else 20)                 # limbs of the root: un ~ k * xl, un / k > 2
+        x = rng.choice([rng.getrandbits(64 * xl - rng.randrange(0, 64)) | 1,
+                        rrandomb(rng, 64 * xl) | (1 << (64 * xl - 1)),
+                        (1 << (64 * xl - rng.randrange(0, 64))) - 1,
+                        (1 << (64 * xl - 1 - rng.randrange(0, 64))) + rng.getrandbits(rng.choice([1, 8, 64]))])
+        if x < 2: continue
+        p = x ** k
+        yield "mpz_root %d %s %x" % (rng.choice([0, 2, 2]), hx(p), k)
+        yield "mpn_rootrem_norem %s %x" % (vec(limbs_of(p)), k)
+        yield "mpz_root 2 %s %x" % (hx(p + rng.choice([-1, 1])), k)
+        if k % 2 == 1 and rng.random() < 0.3: yield "mpz_root 0 %s %x" % (hx(-p), k)
+        if p.bit_length() < 2600 and rng.random() < 0.2: yield "mpz_perfect_power_p %s" % hx(rng.choice([p, -p]))
     # ---- perfect powers with several prime factors, negative bases, exponent gcd logic of perfpow.c
     small_primes = [2, 3, 5, 7, 11, 13, 997, 1009, 1013, 10007]
     for _ in range(200 if quick else 2000):
